@@ -76,8 +76,10 @@ def main(argv):
         demo_names = sorted(set(re.findall(r'mod (demo_\w+)', txt)))
         flt = ' '.join(demo_names) if demo_names else 'demo'
         cmd = 'cargo test --offline --lib %s -- --test-threads=1 2>&1 | grep -E "^test |test result"' % (demo_names[0] if demo_names else 'demo')
-        if 'tests/' in txt and not demo_names:
-            cmd = 'cargo test --offline 2>&1 | grep -E "^test .*demo|test result"'
+        tfiles = sorted(set(re.findall(r'\+\+\+ b/tests/(\w+)\.rs', txt)))
+        if tfiles and not demo_names:
+            # an integration test file of its own: run only that test target (the crate has a pre-existing failing doctest)
+            cmd = 'cargo test --offline %s -- --test-threads=1 2>&1 | grep -E "^test |test result"' % ' '.join('--test ' + t for t in tfiles)
         rc, out = sh(cmd, cwd=EVAL)
         meta['demo_with_patch'] = out.strip()[-600:]
         fails_with = 'FAILED' in out or 'failed' in out
